@@ -15,6 +15,7 @@ import concurrent.futures, multiprocessing, os, time
 import vf
 from schema_proto2lean import load_env
 import schema_tie as T
+import schema_c13_focus as F
 
 LEVEL = "proof"
 
@@ -69,13 +70,22 @@ def run(ctx):
                 "interpreter of the translated definition, and real decode vs the interpreter's visible value; plus truncations and required-None encodings. "
                 "distinct non-trivial = distinct (module, item, configuration, repetition) cases that agreed" % ("1" if quick else "6"))
     # ---- 1. translate + cross-check the two readers
-    envs = {}
+    # The definition, as the independent reader reads it, is the authority of the property. A disagreement with the
+    # repository's own reader is not reported here: the items the readings differ on become the *focus* of the tie
+    # (more values, see schema_c13_focus), and only if the checked-in generated code agrees with the definition on
+    # everything explored does the disagreement end as a broken correspondence without failing input (step 4).
+    envs, reader_problem, focus = {}, {}, {}
     for n in names:
         env, problem = load_env(protodir, repo, n)
         if problem:
-            ctx.corr_break("proto-readers:" + n, "my .proto reader and the repository's Parser disagree / fail on %s.proto: %s" % (n, problem), {"file": n})
+            reader_problem[n] = problem
+            if env is not None:
+                focus[n] = F.reader_focus(protodir, repo, n)
         if env is not None:
             envs[n] = env
+        else:
+            ctx.corr_break("proto-readers:" + n, "the independent .proto reader fails on %s.proto (no reading of the definition to compare the generated code with): %s" % (n, problem), {"file": n})
+    ctx.extra["definitions_read_differently_by_the_repository_reader"] = sorted(reader_problem)
     # ---- 2. generated obligations
     t0 = time.time()
     for name, thm, ok, out in obligations(ctx, envs):
@@ -94,15 +104,24 @@ def run(ctx):
         nchunks = max(1, min(len(cfgs), round(w / (1500 if quick else 400))))
         size = (len(cfgs) + nchunks - 1) // nchunks
         for i in range(0, len(cfgs), size):
-            tasks.append((repo, n, cfgs[i:i + size], ctx.seed, per_item, exe, True))
+            opts = {"marker": True, "shrink": True}
+            if n in focus:
+                opts.update(focus=focus[n], focus_reps=6 if quick else 12)
+            tasks.append((repo, n, cfgs[i:i + size], ctx.seed, per_item, exe, True, opts))
     tasks.sort(key=lambda t: -weight[t[1]] * len(t[2]))
     mp = multiprocessing.get_context("fork")
     total_structs, total_methods, unsupported = {}, {}, 0
     soft, hard = [], []
+    crashed = {}
     with mp.Pool(processes=min(16, os.cpu_count() or 4), maxtasksperchild=1) as pool:
         for res in pool.imap_unordered(T.task, tasks):
             if res["error"]:
-                raise vf.InfraError("worker for %s crashed:\n%s" % (res["module"], res["error"]))
+                if "RuntimeError: driver " in res["error"] or "TimeoutExpired" in res["error"] or "MemoryError" in res["error"]:
+                    raise vf.InfraError("worker for %s crashed:\n%s" % (res["module"], res["error"]))
+                # the harness drives every generated module of the unchanged tree without an exception: a crash means the
+                # generated module / library no longer behaves as the tie expects, and no failing input was isolated
+                crashed.setdefault(res["module"], res["error"])
+                continue
             total_structs[res["module"]] = res["structs"]
             total_methods[res["module"]] = max(total_methods.get(res["module"], 0), res["methods"])
             unsupported += res["unsupported_checked"]
@@ -115,10 +134,52 @@ def run(ctx):
             ctx.traces_validated += res["lines"]
             for d in res["diffs"]:
                 (soft if d.get("soft") else hard).append(d)
-    for d in hard[:25]:
-        item = d.get("struct") or ("%s.%s" % (d.get("protocol"), d.get("method")))
-        ctx.violation("layout:%s:%s" % (d.get("module"), item), "%s [%s %s cfg=%s]" % (d["what"], d.get("module"), item, d.get("cfg")),
-                      dict(d, how="harness/schema_tie.py: build the value with the generated classes of nintendo.nex.<module> under (nex.version, struct_header, pid_size)=cfg and compare with `nxdrv_C13`"))
+    # ---- 4. report. Root causes first: structures that contain no other differing structure, then other structures,
+    # then methods; modules in turn, lowest configuration first.
+    per_mod = {}
+    for d in hard: per_mod.setdefault(d.get("module"), []).append(d)
+    explained = set()
+    for n, ds in per_mod.items():
+        env = envs.get(n)
+        snames = {d["struct"] for d in ds if d.get("struct")}
+        inner = F.innermost(env, snames) if env is not None else set()
+        fs, fm = F.affected(env, focus[n]) if n in focus else (set(), set())
+        for d in ds:
+            d["_focus"] = bool(d.get("struct") in fs or (d.get("protocol"), d.get("method")) in fm)
+            if d["_focus"] and n in reader_problem:
+                explained.add(n)
+                d["two_readings_of_the_definition"] = {
+                    "authority": "the .proto text as read by the independent reader (tools/schema_proto2lean.py: MyParser)",
+                    "repository_reader": reader_problem[n], "items_read_differently": focus[n]["notes"][:20]}
+        ds.sort(key=lambda d: (not d["_focus"], 0 if d.get("struct") in inner and d.get("save_diff") else 1 if d.get("struct") else 2,
+                               "shrunk" not in d, d.get("cfg") or []))
+    reported = 0
+    queues = [per_mod[n] for n in sorted(per_mod, key=lambda n: (n not in reader_problem, n))]
+    seen_items = set()
+    while reported < 25 and any(queues):
+        for q in queues:
+            while q:
+                d = q.pop(0)
+                item = d.get("struct") or ("%s.%s" % (d.get("protocol"), d.get("method")))
+                if (d.get("module"), item) in seen_items: continue
+                seen_items.add((d.get("module"), item))
+                d.pop("_focus", None)
+                what = "%s [%s %s cfg=%s]" % (d["what"], d.get("module"), item, d.get("cfg"))
+                if "two_readings_of_the_definition" in d:
+                    what += "; the repository's generator reads %s.proto differently from its text (%s) and the checked-in generated code does not follow the definition" % (
+                        d["module"], "; ".join(focus[d["module"]]["notes"][:2])[:400])
+                ctx.violation("layout:%s:%s" % (d.get("module"), item), what,
+                              dict(d, how="harness/schema_tie.py: build the value with the generated classes of nintendo.nex.<module> under (nex.version, struct_header, pid_size)=cfg and compare with `nxdrv_C13` fed with the definition (tools/schema_proto2lean.py driver_lines); 'shrunk' is the same difference on a value with every other attribute reset to zero"))
+                reported += 1
+                break
+            if reported >= 25: break
+    for n, tb in sorted(crashed.items()):
+        if not per_mod.get(n) and n not in explained:
+            ctx.corr_break("worker-crash:" + n, "driving the generated module %s raised an exception the tie does not expect" % n, {"file": n, "traceback": tb[-3000:]})
+    for n, problem in sorted(reader_problem.items()):
+        if n in envs and n not in explained:
+            ctx.corr_break("proto-readers:" + n, "my .proto reader and the repository's Parser disagree / fail on %s.proto and the generated code agrees with my reading on every explored value: %s" % (n, problem),
+                           {"file": n, "items_read_differently": focus.get(n, {}).get("notes", [])[:20]})
     if soft and not hard:
         d = soft[0]
         ctx.corr_break("schema-malformed-inputs", "%d malformed-input cases (truncation / required None) are answered differently by real code and interpreter" % len(soft), d)
